@@ -10,7 +10,7 @@ shutil.copy(os.path.join(out, 'patch.diff'), os.path.join(d, 'patch.diff'))
 shutil.copy(os.path.join(out, 'demo.rs'), os.path.join(d, 'demo.rs'))
 if os.path.exists(os.path.join(out, 'README.md')):
     shutil.copy(os.path.join(out, 'README.md'), os.path.join(d, 'AGENT_README.md'))
-log = '/tmp/verify-%s.log' % name.split('-')[0]
+log = os.environ.get('VERIFY_LOG') or '/tmp/verify-%s.log' % name.split('-')[0]
 ran = []
 if os.path.exists(log):
     txt = open(log).read()
